@@ -265,7 +265,8 @@ func (g *gen) cond() string {
 		if r.Chance(1, 3) {
 			v = g.quote(v)
 		} else if r.Chance(1, 5) {
-			v = g.quote(r.PickStr("2019-03-11 12:34:55", "2019-03-11", "11/03/2019 12:34:55", "2019/03/11 12:34", " 1552307695000000000 ", "yesterday", "", "2019-03-11T12:34:55Z"))
+			v = g.quote(r.PickStr("2019-03-11 12:34:55", "2019-03-11", "11/03/2019 12:34:55", "2019/03/11 12:34", " 1552307695000000000 ", "yesterday", "", "2019-03-11T12:34:55Z",
+				"2019-03-11 12:34:44.500 +0000 UTC", "2019-03-11 12:34:44.5 +0000 UTC", "2019-03-11 12:34:44.050 +0000 UTC", "2019-03-11 12:34:44.000000001 +0000 UTC"))
 		}
 		return operand + g.osp() + op + g.osp() + v
 	case k < 45: // msg
